@@ -409,6 +409,39 @@ theorem C11_batchOpen_complete (γ τ z size : ℕ) (polys : List (List ℕ)) (c
     rw [e1, e2] at h3
     exact h3
 
+/-- the empty batch is refused with `ErrZeroNbDigests` by the prover side too (`C11 bopen0`), as the verifier side refuses it
+(`C11_batchSingle_empty`, `C11_multi_errors`); kzg.go indexes `res.ClaimedValues[-1]` inside a goroutine instead -/
+theorem C11_batchOpen_empty (γ z : ℕ) (pk : List ℕ) : batchOpenSinglePoint r γ [] 0 z pk = .error .zeroDigests := by
+  simp [batchOpenSinglePoint]
+
+/-! ### histories of the serialisation API and of a setup ceremony -/
+
+/-- objects written one after the other to ONE stream, followed by any trailer, are read back by as many `ReadFrom` calls on ONE
+reader — every object, in order, and exactly the trailer is left — as soon as each codec is prefix-exact (`C11 stream`) -/
+theorem C11_stream_roundtrip {α : Type} (c : Codec α) (as : List α) (t : List UInt8) :
+    decMany c as.length ((as.map c.enc).flatten ++ t) = some (as, t) := by
+  induction as with
+  | nil => rfl
+  | cons a as ih =>
+    simp only [List.map_cons, List.flatten_cons, List.length_cons, List.append_assoc, decMany, c.exact, ih]
+
+/-- the honest chain of transcripts k+1, k+2, … is accepted link by link from transcript k (`C11 mpcchain`, no drop) -/
+theorem C11_chain_honest (k n : ℕ) : chainVerdicts k (List.range' (k + 1) n) = List.replicate n true := by
+  induction n generalizing k with
+  | zero => rfl
+  | succ n ih =>
+    rw [List.range'_succ, chainVerdicts, ih (k + 1), List.replicate_succ]
+    simp [linkOk]
+
+/-- a transcript left out: exactly the link over the gap is refused, the chain after it is accepted again -/
+theorem C11_chain_gap (k m : ℕ) : chainVerdicts k (List.range' (k + 2) (m + 1)) = false :: List.replicate m true := by
+  rw [List.range'_succ, chainVerdicts, C11_chain_honest (k + 2) m]
+  simp [linkOk]
+
+example : chainVerdicts 0 (phasesOf 4 none) = [true, true, true, true] := by decide
+example : chainVerdicts 0 (phasesOf 5 (some 2)) = [true, true, false, true] := by decide
+example : chainVerdicts 0 (phasesOf 3 (some 2)) = [true, true] := by decide
+
 example : batchOpenSinglePoint 13 2 [[1, 2, 3], [7]] 2 2 (powers 13 5 1 4) = .ok (10, [4, 7]) := by decide
 example : batchVerifySinglePoint 13 2 (vkOf 13 5) [8, 7] 10 [4, 7] 2 = .ok true := by decide  -- commitments p₀(5) = 86 = 8, 7
 
